@@ -76,6 +76,7 @@ structure InstW where
   startedAt : Nat := 0
   candidateSince : Nat := 0     -- latest of: Start, last loss of leadership, healing of a partition
   stoppedSince : Option Nat := none   -- a stop returned ok at that time and no Start was called since
+  takeoverLateReported : Bool := false
   runToks : List Nat := []            -- tokens this instance put into store calls issued since its last Start
   lastStaleWev : Nat := 0             -- latest delivery of a watch notification older than the record it describes
   stopCalledSince : Option Nat := none
